@@ -77,35 +77,35 @@ func (f finding) matches(prop, harness string, labels []string, choices map[stri
 }
 
 type harnessEvidence struct {
-	Fn              string            `json:"harness"`
-	What            string            `json:"what,omitempty"`
-	Bounds          string            `json:"bounds,omitempty"`
-	Paths           int               `json:"paths"`
-	PathsNontrivial int               `json:"paths_nontrivial"`
-	Instrs          int64             `json:"ssa_instructions"`
-	Decisions       int64             `json:"symbolic_decisions"`
-	Obligations     int               `json:"obligations"`
-	DischargedSyn   int               `json:"discharged_syntactic"`
-	DischargedSolv  int               `json:"discharged_solver"`
-	Inconclusive    int               `json:"inconclusive_obligations"`
-	Queries         map[string]int    `json:"queries"`
-	QueriesBy       map[string]int    `json:"queries_by_solver"`
-	SolverS         float64           `json:"solver_s"`
-	WallS           float64           `json:"wall_s"`
-	Abandoned       map[string]int    `json:"paths_abandoned"`
-	AssumePruned    int               `json:"paths_pruned_by_assume"`
-	Truncated       bool              `json:"truncated"`
-	Reach           map[string]int    `json:"reach"`
-	Vacuous         []string          `json:"vacuous_labels"`
-	Candidates      map[string]int    `json:"candidate_violations"`
-	Confirmed       int               `json:"confirmed_violations"`
-	Unconfirmed     int               `json:"unconfirmed_models"`
-	Known           int               `json:"known_findings_hit"`
-	Conformance     int               `json:"conformance_replays_ok"`
-	ConformanceBad  int               `json:"conformance_replays_mismatch"`
-	Skipped         string            `json:"skipped,omitempty"`
-	Intercepted     int               `json:"summarised_calls,omitempty"`
-	Notes           []string          `json:"notes,omitempty"`
+	Fn              string         `json:"harness"`
+	What            string         `json:"what,omitempty"`
+	Bounds          string         `json:"bounds,omitempty"`
+	Paths           int            `json:"paths"`
+	PathsNontrivial int            `json:"paths_nontrivial"`
+	Instrs          int64          `json:"ssa_instructions"`
+	Decisions       int64          `json:"symbolic_decisions"`
+	Obligations     int            `json:"obligations"`
+	DischargedSyn   int            `json:"discharged_syntactic"`
+	DischargedSolv  int            `json:"discharged_solver"`
+	Inconclusive    int            `json:"inconclusive_obligations"`
+	Queries         map[string]int `json:"queries"`
+	QueriesBy       map[string]int `json:"queries_by_solver"`
+	SolverS         float64        `json:"solver_s"`
+	WallS           float64        `json:"wall_s"`
+	Abandoned       map[string]int `json:"paths_abandoned"`
+	AssumePruned    int            `json:"paths_pruned_by_assume"`
+	Truncated       bool           `json:"truncated"`
+	Reach           map[string]int `json:"reach"`
+	Vacuous         []string       `json:"vacuous_labels"`
+	Candidates      map[string]int `json:"candidate_violations"`
+	Confirmed       int            `json:"confirmed_violations"`
+	Unconfirmed     int            `json:"unconfirmed_models"`
+	Known           int            `json:"known_findings_hit"`
+	Conformance     int            `json:"conformance_replays_ok"`
+	ConformanceBad  int            `json:"conformance_replays_mismatch"`
+	Skipped         string         `json:"skipped,omitempty"`
+	Intercepted     int            `json:"summarised_calls,omitempty"`
+	Notes           []string       `json:"notes,omitempty"`
 	samples         []any
 	funcs           map[string]bool
 	choicesOfViol   []map[string]uint64
@@ -119,6 +119,7 @@ func runProperty(prop, tier string) int {
 		fatal("property %s is not registered (see MANIFEST.json not_applicable)", prop)
 	}
 	thorough := tier == "thorough"
+	replayThorough = thorough
 	seed := 0
 	if s := os.Getenv("VERIF_SEED"); s != "" {
 		seed, _ = strconv.Atoi(s)
@@ -386,4 +387,3 @@ func writeEvidence(prop, tier string, seed int, pc propCfg, hev []*harnessEviden
 		fatal("writing evidence: %v", err)
 	}
 }
-
